@@ -119,7 +119,8 @@ CLAIMED["C13"] = dict(
          "propagate_region_liveness are verified against each other's discharged contracts (the live set only grows, `changed` is raised whenever something becomes live); "
          "traits.get_effects and RecursiveMemoryEffect.get_effects return a set only if every effect interface / every nested op reports known effects. The pass-level "
          "clauses (exact remaining ops and blocks = oracle liveness/reachability, nothing removable left, IR consistent) are decided by a "
-         "bounded stand-in on generated CFG regions for region_dce and the dce pattern pass.",
+         "bounded stand-in on generated CFG regions for region_dce and the dce pattern pass, on nests of recursive-effect ops (leaves: pure / read / write / unknown / "
+         "ALLOC of the op's own result / ALLOC of an outer value) and on ops whose terminator / symbol trait is a subclass.",
     note="Assumed: trait declarations are truthful; each effect interface's own answer is uninterpreted; PatternRewriter.erase is a trusted callee contract; "
          "PostOrderIterator(first) is read as C24's post-order sequence; the fixpoint loop of region_dce (iteration to `changed == False`) bounded only; pyvc + z3 trusted.",
     design="§4 C13",
@@ -233,7 +234,8 @@ CLAIMED["C25"] = dict(
          "verified with the inductive invariant 'every violated constraint is pending / every active op is registered with its result lattices / every "
          "live lattice lies in every closed set / pending items are in the deque', with popleft modelled as removal of an ARBITRARY element: at exit "
          "the live set is closed under the two rules of the statement and contained in every closed set, i.e. it is the least fixpoint whatever the "
-         "worklist order. Plus a bounded stand-in: real solver on generated programs under FIFO/LIFO/random schedules vs a reachability oracle.",
+         "worklist order. Plus a bounded stand-in: real solver on generated programs under FIFO/LIFO/random schedules, with values handed to the public "
+         "set_all_to_exit_states before or after the liveness walk, vs a reachability oracle.",
     note="NOT proved: the initialisation phase (analysis.initialize) is assumed to establish the loop invariant (bounded stand-in only); the state table is "
          "abstracted as a function LAT (justified by the discharged get_or_create_state contract); other analyses sharing the solver are assumed not to "
          "touch Liveness lattices; termination; would_be_trivially_dead is C13's. pyvc + z3 trusted.",
@@ -307,12 +309,14 @@ CLAIMED["C06"] = dict(
          "print_bytes_literal / StringLiteral.bytes_contents (all adjacent byte pairs); boundary + seeded patterns for f32/f64 (all exponents x 5 "
          "mantissas, subnormals, signed zeros, infinities, NaN payloads); IntegerAttr widths 1..128 x 3 signednesses at the range boundaries; "
          "seeded strings/bytes over hostile alphabets (non-ASCII, quotes, control characters); seeded structured values of depth <= 2: dense "
-         "elements (splats, signed zeros, NaN/inf elements, empty, i1), dense arrays, arrays, dictionaries, symbol references, locations, affine "
+         "elements (splats, signed zeros, NaN/inf elements, empty, i1, rank 3 and 4, complex elements over the float special values), dense arrays, arrays, dictionaries, symbol references, "
+         "locations (file, fused with and without metadata, call-site, name), affine "
          "maps, tensor/memref/vector/complex/tuple/function types. Discharged kernels (pyvc + z3): Printer.print_bytes_literal encodes each "
          "byte independently by the three-way rule for byte strings of any length; IntegerType.normalized_value is a canonical function of the "
          "bit pattern (widths 1..128). Exploration is the honest level: float<->decimal conversion and the recursive printers/parsers are not "
          "within reach of the SMT-backed generator.",
-    note="Four defects repaired (hex float elements in dense / dense-array literals, splat detection on signed zeros, UTF-8 string vs bytes lexing). "
+    note="Six defects repaired (hex float elements in dense / dense-array / complex dense literals, splat detection on signed zeros, UTF-8 string vs bytes lexing, "
+         "fused-location metadata). "
          "Known findings: BytesAttr with a valid-UTF-8 payload and NoneAttr share their syntax with StringAttr / NoneType. Not covered: opaque / "
          "resource attributes, strided layouts, sparse elements.",
     design="§4 C06, §9",
